@@ -23,7 +23,22 @@ type Process struct {
 	Reaped bool
 	Task   *Task
 	User   interface{} // world-specific per-process log
+	carrier byte       // race-detector carrier: process exit happens before a successful wait
 }
+
+// SetStatus / ExitStatus keep the exit status out of the race detector's sight
+// (it is written by the process task and read by the waiting task; the real
+// ordering - exit before wait returns - is announced through the carrier).
+//
+//go:norace
+func (p *Process) SetStatus(st int) {
+	if !p.Exited {
+		p.Status = st
+	}
+}
+
+//go:norace
+func (p *Process) ExitStatus() int { return p.Status }
 
 // RegisterExec installs an executable for the run.
 //
@@ -48,28 +63,29 @@ func (s *Sim) StartProcess(e *ExecEntry, path string, args []string, stdin *Pipe
 	s.Procs = append(s.Procs, p)
 	main := e.Main
 	t := s.newTask("proc:"+e.Name, func() {
-		st := main(p)
-		if !p.Exited {
-			p.Status = st
-		}
+		p.SetStatus(main(p))
 	})
 	t.Proc = p
 	p.Task = t
-	t.OnExit(func() {
-		if t.Panic != "" {
-			p.Status = 2
-		}
-		p.Exited = true
-		if p.Stdin != nil {
-			p.Stdin.CloseQuiet()
-		}
-		if p.Stdout != nil {
-			p.Stdout.CloseQuiet()
-		}
-		s.Emit("proc-exit", p.Name, int64(p.Status), "")
-	})
+	t.OnExit(func() { s.processExited(p, t) })
 	s.Emit("proc-start", p.Name, int64(p.Pid), "")
 	return p
+}
+
+//go:norace
+func (s *Sim) processExited(p *Process, t *Task) {
+	if t.Panic != "" {
+		p.Status = 2
+	}
+	raceReleaseMerge(&p.carrier)
+	p.Exited = true
+	if p.Stdin != nil {
+		p.Stdin.CloseQuiet()
+	}
+	if p.Stdout != nil {
+		p.Stdout.CloseQuiet()
+	}
+	s.Emit("proc-exit", p.Name, int64(p.Status), "")
 }
 
 // WaitProcess blocks until p has exited and marks it reaped.
@@ -81,6 +97,7 @@ func (s *Sim) WaitProcess(p *Process) {
 		pProcWaitBlocked.Hit()
 		s.blockOn(wProc, p)
 	}
+	raceAcquire(&p.carrier)
 	p.Reaped = true
 	s.Emit("proc-reaped", p.Name, int64(p.Status), "")
 }
